@@ -1,0 +1,13 @@
+//go:build verif
+
+package ast
+
+// Contracts for the verification machinery in /verif (comment-only file;
+// excluded from every build without the "verif" tag).
+
+//@ func NewIdent
+//@   assumed A-int: allocates an identifier node
+//@   ensures result != nil && fresh(result)
+
+//@ func NewBinExpr
+//@   assumed A-int: allocates binary expression nodes
